@@ -106,7 +106,7 @@ func (p c06) history(c *fw.Ctx) []c06Step {
 	n := 6 + r.IntN(20)
 	val := func() *gt.Node { return gt.Lit(int64(100 + r.IntN(900))) }
 	for len(steps) < n+5 {
-		switch r.IntN(21) {
+		switch r.IntN(23) {
 		case 0:
 			v := c06Vars[r.IntN(len(c06Vars))]
 			isMap := r.IntN(2) == 0
@@ -157,6 +157,19 @@ func (p c06) history(c *fw.Ctx) []c06Step {
 				dst := other(mx)
 				add("plus", gt.Assign(dst, gt.In("+", gt.Id(mx), gt.Id(my))))
 				kinds[dst] = "m"
+			}
+		case 21: // grow one map key by key (spare capacity), then merge a smaller one with other keys into a third variable
+			mx, my := pick("m"), pick("m")
+			if mx != "" && my != "" && mx != my {
+				for k := 0; k < 1+r.IntN(4); k++ {
+					add("idxassign", &gt.Node{K: gt.KIdxAssign, Name: my, Kids: []*gt.Node{gt.Lit(fmt.Sprintf("n%d", r.IntN(30))), val()}})
+				}
+				add("idxassign", &gt.Node{K: gt.KIdxAssign, Name: mx, Kids: []*gt.Node{gt.Lit(fmt.Sprintf("x%d", r.IntN(30))), val()}})
+				dst := other(mx)
+				if dst != my {
+					add("plus", gt.Assign(dst, gt.In("+", gt.Id(mx), gt.Id(my))))
+					kinds[dst] = "m"
+				}
 			}
 		case 20: // + with an empty operand: the result is still a value of its own
 			v := c06Vars[r.IntN(len(c06Vars))]
